@@ -4,7 +4,9 @@
     fggs/fggs.py:InterpretationMixin statement by statement). *)
 From Coq Require Import List Arith Bool ZArith QArith.
 Import ListNotations.
+Require Import Fggs.Model.Axis.
 Require Import Fggs.Model.Domain Fggs.Proofs.Domain_dom Fggs.Proofs.Domain_fac Fggs.Proofs.Domain_bind.
+Require Import Fggs.Model.DomainPat Fggs.Proofs.DomainPat_thm.
 Local Open Scope nat_scope.
 
 (** * C20_bijection *)
@@ -393,3 +395,46 @@ Theorem C20_step_oracle_add_factor : forall s e f,
   step_oracle s (OAddFactor e f) (snd (add_factor s e f)) = 0.
 Proof. exact step_oracle_add_factor. Qed.
 Print Assumptions C20_step_oracle_add_factor.
+
+(** * Weights given as a PatternedTensor representation (Model.DomainPat) *)
+
+(** the dense tensor computed from (paxes, physical data, vaxes, default) is well-formed and has
+    the shape of the vaxes *)
+Theorem C20_pat_dense_wf : forall p t, pat_dense p = Some t -> tensor_wf t = true /\ fst t = pat_shape p.
+Proof. exact pat_dense_wf. Qed.
+Print Assumptions C20_pat_dense_wf.
+
+(** ... and at every in-range row-major position it holds the element the representation denotes *)
+Theorem C20_pat_dense_at : forall p sh data idx, pat_dense p = Some (sh, data) -> Forall2 lt idx sh ->
+  exists w, pat_at p idx = Some w /\ nth_error data (rm_offset sh idx 0) = Some w.
+Proof. exact pat_dense_at. Qed.
+Print Assumptions C20_pat_dense_at.
+
+(** which is the DEFAULT wherever a vaxis reports the position as not stored (off the diagonal, in
+    the padding of a SumAxis), and the stored element wherever all vaxes decode it *)
+Theorem C20_pat_at_unstored : forall ps data vs d idx,
+  Axis.index_list vs [] idx = IEmpty -> pat_at (ps, data, vs, d) idx = Some d.
+Proof. exact pat_at_unstored. Qed.
+Print Assumptions C20_pat_at_unstored.
+
+Theorem C20_pat_at_stored : forall ps data vs d idx pi off,
+  Axis.index_list vs [] idx = IOk pi -> phys_offset ps pi 0 = Some off ->
+  pat_at (ps, data, vs, d) idx = nth_error data off.
+Proof. exact pat_at_stored. Qed.
+Print Assumptions C20_pat_at_stored.
+
+(** a case accepted by facp_check: every apply on a complete tuple of domain values answered the
+    element denoted by the representation at the numberized position (stored or not) *)
+Theorem C20_apply_patterned : forall doms p p' f iapps ieqs,
+  facp_check (doms, p, p', Ok f, iapps, ieqs) = 0 ->
+  forallb good_dom doms = true ->
+  forall vs r is, In (vs, r) iapps -> spec_indices doms vs = Some is ->
+  exists w d', pat_at p is = Some w /\ r = Ok ([], d') /\ Forall2 Qeq d' [w].
+Proof. exact facp_check_apply. Qed.
+Print Assumptions C20_apply_patterned.
+
+(** ... and apply / == left the representation of the weights as it was *)
+Theorem C20_apply_patterned_unchanged : forall doms p p' ictor iapps ieqs,
+  facp_check (doms, p, p', ictor, iapps, ieqs) = 0 -> pat_eqb p p' = true.
+Proof. exact facp_check_unchanged. Qed.
+Print Assumptions C20_apply_patterned_unchanged.
